@@ -533,6 +533,147 @@ func c15Extract(out string) int {
 		}
 	}
 
+	// fact debugger_read_at_eval_time: where does every evaluator-side use of a debugger value
+	// (receiver of a call through the util.ECALDebugger interface, or operand of a nil test) come from?
+	debuggerUses := map[[2]string]bool{}
+	var debuggerFields []string
+	if typed {
+		for _, name := range pkg.Scope().Names() {
+			if tn, ok := pkg.Scope().Lookup(name).(*types.TypeName); ok {
+				if st, ok := tn.Type().Underlying().(*types.Struct); ok && name != "ECALRuntimeProvider" {
+					for i := 0; i < st.NumFields(); i++ {
+						if x.kind(st.Field(i).Type()) == "debugger" {
+							debuggerFields = append(debuggerFields, name+"."+st.Field(i).Name())
+						}
+					}
+				}
+			}
+		}
+		sort.Strings(debuggerFields)
+		cmdT := x.iface("github.com/krotik/ecal/util", "DebugCommand")
+		for o, fd := range x.decls {
+			if x.reach[o] {
+				continue
+			}
+			who := c15FuncName(o)
+			commandSide := false
+			if r := o.Type().(*types.Signature).Recv(); r != nil && cmdT != nil && c15Impl(r.Type(), cmdT) {
+				commandSide = true
+			}
+			params := map[types.Object]bool{}
+			if fd.Recv != nil {
+				for _, f := range fd.Recv.List {
+					for _, n := range f.Names {
+						params[info.ObjectOf(n)] = true
+					}
+				}
+			}
+			for _, f := range fd.Type.Params.List {
+				for _, n := range f.Names {
+					params[info.ObjectOf(n)] = true
+				}
+			}
+			var classify func(e ast.Expr, depth int) string
+			classify = func(e ast.Expr, depth int) string {
+				if depth > 4 {
+					return "?deep"
+				}
+				switch e := e.(type) {
+				case *ast.ParenExpr:
+					return classify(e.X, depth+1)
+				case *ast.SelectorExpr:
+					name, _ := x.structName(info.TypeOf(e.X))
+					switch name {
+					case "ECALRuntimeProvider":
+						return "provider-field"
+					case "":
+						return "?selector on non-struct"
+					}
+					return "stored:" + name + "." + e.Sel.Name
+				case *ast.Ident:
+					obj := info.ObjectOf(e)
+					if obj == nil {
+						return "?ident"
+					}
+					if obj.Parent() == pkg.Scope() {
+						return "pkgvar:" + e.Name
+					}
+					if params[obj] {
+						return "?parameter"
+					}
+					res := ""
+					ast.Inspect(fd.Body, func(n ast.Node) bool {
+						var lhs []ast.Expr
+						var rhs []ast.Expr
+						switch s := n.(type) {
+						case *ast.AssignStmt:
+							lhs, rhs = s.Lhs, s.Rhs
+						case *ast.ValueSpec:
+							for _, nm := range s.Names {
+								lhs = append(lhs, nm)
+							}
+							rhs = s.Values
+						}
+						for i, l := range lhs {
+							if id, ok := l.(*ast.Ident); ok && info.ObjectOf(id) == obj && len(rhs) == len(lhs) {
+								c := classify(rhs[i], depth+1)
+								if c == "provider-field" || c == "local-from-provider" {
+									c = "local-from-provider"
+								}
+								if res == "" || res == c {
+									res = c
+								} else if strings.HasPrefix(c, "stored:") || strings.HasPrefix(res, "?") {
+									res = c
+								}
+							}
+						}
+						return true
+					})
+					if res == "" {
+						return "?local without visible definition"
+					}
+					return res
+				}
+				return "?expression"
+			}
+			note := func(e ast.Expr) {
+				t := info.TypeOf(e)
+				if t == nil || x.kind(t) != "debugger" {
+					return
+				}
+				if _, isIface := t.Underlying().(*types.Interface); !isIface {
+					return
+				}
+				c := classify(e, 0)
+				if strings.HasPrefix(c, "?") {
+					if !commandSide {
+						x.unresolved[[2]string{who, "origin of the debugger value: " + c[1:]}] = true
+					}
+					return
+				}
+				debuggerUses[[2]string{who, c}] = true
+			}
+			ast.Inspect(fd.Body, func(n ast.Node) bool {
+				switch s := n.(type) {
+				case *ast.CallExpr:
+					if se, ok := s.Fun.(*ast.SelectorExpr); ok && info.Selections[se] != nil {
+						note(se.X)
+					}
+				case *ast.BinaryExpr:
+					if s.Op == token.EQL || s.Op == token.NEQ {
+						if id, ok := s.Y.(*ast.Ident); ok && id.Name == "nil" {
+							note(s.X)
+						}
+						if id, ok := s.X.(*ast.Ident); ok && id.Name == "nil" {
+							note(s.Y)
+						}
+					}
+				}
+				return true
+			})
+		}
+	}
+
 	var sb strings.Builder
 	sb.WriteString("/-! GENERATED by `harness C15 -tool extract` from the TYPE-CHECKED Go source under test — do not edit.\n")
 	sb.WriteString("`observerAccesses`: (function, access) for every function of package interpreter reachable from the\n")
@@ -584,6 +725,17 @@ func c15Extract(out string) int {
 		wparts = append(wparts, fmt.Sprintf("(%q, %q, %q)", k[0], k[1], k[2]))
 	}
 	sb.WriteString("def ownWrites : List (String × String × String) :=\n  [" + strings.Join(wparts, ",\n  ") + "]\n\n")
+	sb.WriteString("/-- fact debugger_read_at_eval_time: (function, origin) of every debugger value the evaluator side uses\n")
+	sb.WriteString("(call through util.ECALDebugger / nil test): `provider-field` = read from the runtime provider at that\n")
+	sb.WriteString("moment, `local-from-provider` = a local assigned from it in the same function, `stored:T.f` = a field of\n")
+	sb.WriteString("another struct (a value kept from an earlier time), `pkgvar:v` -/\n")
+	sb.WriteString("def debuggerUses : List (String × String) :=\n  " + pairs(debuggerUses) + "\n\n")
+	sb.WriteString("/-- struct fields of a debugger type outside the runtime provider (informative) -/\n")
+	var dfp []string
+	for _, f := range debuggerFields {
+		dfp = append(dfp, fmt.Sprintf("%q", f))
+	}
+	sb.WriteString("def debuggerFields : List String := [" + strings.Join(dfp, ", ") + "]\n\n")
 	sb.WriteString("def unresolved : List (String × String) :=\n  " + pairs(x.unresolved) + "\n\n")
 	sb.WriteString("end Ecal.Gen.C15\n")
 	if len(terrs) > 0 {
